@@ -93,6 +93,14 @@ static void quad_T(const QuadC &c0, vf::Obs &o) {
   const size_t d = fT.size() - 1;
   auto f = [&fT](const T &x) { T s = fT.back(); for (size_t k = fT.size() - 1; k-- > 0;) s = s * x + fT[k]; return s; };
   T lib = integ<n>(c.stateless, f, m1, m2);
+  if constexpr (o1 == o2) {
+    // ONE spline object on both sides (a "diagonal element"): must equal the value for two equal objects
+    if (c.m1.s == c.m2.s && c.m1.e == c.m2.e && c.m1.num == c.m2.num && c.m1.cden == c.m2.cden && c.m1.zmask == c.m2.zmask && !c.distinct) {
+      o.cls("same-object-on-both-sides");
+      T diag = integ<n>(c.stateless, f, m1, m1);
+      VCHECK(o, exact(diag) == exact(lib), "integrate(f, s, s) with one object on both sides = " << exact(diag).get_d() << " differs from the value for two equal objects " << exact(lib).get_d());
+    }
+  }
   R got = exact(lib);
 
   // set model of the common intervals
@@ -201,6 +209,7 @@ int main(int argc, char **argv) {
     int d = (int)pick(0, 3);
     c.fden = one_of<i64>({1, 2, 4});
     for (int k = 0; k <= d; k++) c.f.push_back(k == d ? (chance(50) ? pick(1, 6) : -pick(1, 6)) : pick(-6, 6));
+    if (chance(12)) { c.o2 = c.o1; c.m2 = c.m1; c.distinct = 0; }  // identical operands: also evaluated with ONE object on both sides
     if (chance(45)) { c.stateless = pick(1, 3); c.f = stateless_coeffs(c.stateless); c.fden = 2; }
     c.prelude = chance(40);
     return c;
